@@ -202,7 +202,7 @@ pub fn run(o: &Opts) -> i32 {
         // a few multi-GiB inputs (output block-size indices 23/24 with real data)
         streams.push(
             Stream::new("huge", o.n(0, 8), move |i, rng: &mut Rng, l: &mut Local| {
-                let sz = ((1u64 << 30) + (i % 4) * (1u64 << 30) - rng.below(3)) as usize;
+                let sz = if i == 7 { ((1u64 << 32) + 12_345 + rng.below(1000)) as usize } else { ((1u64 << 30) + (i % 4) * (1u64 << 30) - rng.below(3)) as usize };
                 let d = bytes::gen_kind(rng, if i % 2 == 0 { 0 } else { 4 }, sz);
                 check_input(l, &d, "huge");
             })
